@@ -1198,7 +1198,7 @@ def _split(repo, col):
     # starts and ends at the same traced point and matches itself)
     if st_par:
         v, s_ = st_par[0]
-        is_match = lambda t: T.find(t, lambda x: x.op in ("call", "mcall") and x.name == "where") is not None
+        is_match = lambda t: T.find(t, lambda x: x.op in ("call", "mcall") and x.name in ("where", "nonzero", "flatnonzero", "argwhere")) is not None
         is_own = lambda t: T.find(t, is_match) is None and (
             (t.op == "item" and t.name == 0 and t.args[0].op == "elem" and t.args[0].args[0].op == "call" and t.args[0].args[0].name == "enumerate")
             or (t.op == "elem" and t.args[0].op == "call" and t.args[0].name == "range"))
